@@ -22,7 +22,10 @@ def command_events(ctx):
                 ln = {4: 60, 8: 120}.get(k % 9, 5 + k % 70)      # full 60-column lines among the others
                 seq = "".join("acgt"[(k + i) % 4] for i in range(ln))
                 if qual:
-                    f.write("@r0_%d\n%s\n+\n%s\n" % (k, seq, "I" * len(seq)))
+                    q = "I" * len(seq)
+                    if k % 5 == 3:          # old Illumina scores (offset 64): any printable character, backslash included
+                        q = ("`b\\u{{z" * len(seq))[:len(seq)]
+                    f.write("@r0_%d\n%s\n+\n%s\n" % (k, seq, q))
                 else:
                     f.write(">r0_%d\n%s\n" % (k, seq))
         return name
@@ -35,7 +38,8 @@ def command_events(ctx):
             for cpu, bs in ((1, 1000), (3, 2), (8, 1)):
                 base = ["--max-cpu", str(cpu), "--batch-size", str(bs)] + zopt
                 for fmt, cmd, opts, inp in (("fasta", conv, ["--fasta-output"], fa), ("fastq", conv, ["--fastq-output"], fq),
-                                            ("json", conv, ["--json-output"], fa), ("csv", ocsv, ["--ids", "--count", "--sequence"], fa)):
+                                            ("json", conv, ["--json-output"], fa), ("json", conv, ["--json-output"], fq),
+                                            ("csv", ocsv, ["--ids", "--count", "--sequence"], fa)):
                     for how in ("stdout", "file"):
                         if how == "file" and fmt == "csv":
                             continue                      # obicsv ignores -o (outside C04)
